@@ -14,14 +14,21 @@ META = {
             "isolation hold for any sequence). Tied to the code by running generated test files (every body template "
             "alone and between passing tests, all 120 orders of the five outcomes, random files of 1-12 blocks) through "
             "the real commands.TestAction in-process and comparing the printed PASS/FAIL lines and the stop/no-stop "
-            "outcome with the model, plus a model-free oracle from the generator's own knowledge of each block.",
+            "outcome with the model, plus a model-free oracle from the generator's own knowledge of each block. Bodies "
+            "include `@compile` directives carrying each compiler-setting override (unknown=, unused=, optimize=) that "
+            "compile, whose block error is caught or raised, and that fail at directive level after the flags are read "
+            "(catch clause that does not compile, catch variable not a name / never used, missing ')', missing eof "
+            "marker), each followed by bodies whose verdict depends on the default settings (a name only known at run "
+            "time, an unused variable); a second model-free oracle requires every file to leave the three "
+            "process-global compiler settings as a file without @compile leaves them.",
     "note": "The model mirrors the code WITH fixes/C13.patch (three defects of the unpatched tree are witnessed by "
             "C13_fail_line_old_counterexample, C13_split_old_counterexample, C13_stale_try_old_counterexample and are "
             "reported as VIOLATION with concrete files against an unpatched tree). Trusted: Lean kernel; the harness; "
             "the parse of 'TEST: … (PASS|FAIL)' lines. Modelled, not verified: a body is run big-step (what it leaves "
             "behind + how it ends), addresses are block-relative, all try entries are catch-all, the text of a line is "
             "(name, verdict). Out of scope: panic() and os.Exit() in a body (they end the run by design, like Go), "
-            "lexical damage that hides an @test from the tokenizer (unterminated raw string / comment), a body that "
+            "lexical damage that hides an @test from the tokenizer (unterminated raw string / comment, an `@compile eof=` "
+            "whose marker is missing: such a body is only generated as the last block of a file), a body that "
             "shadows `len`/`T`/`__activeTests` at file level, goroutines.",
     "technique": "Lean 4 proof (invariant + induction over the block list, symbolic execution of the skeleton) + "
                  "model/implementation correspondence through the real `ego test` entry",
@@ -53,6 +60,8 @@ def run(ctx):
     if not cases:
         ctx.broken.append("harness produced no cases")
     ctx.correspond(cases)
+    # failures whose printed lines differ from the wanted ones first (the replay file keeps the first 20)
+    failures.sort(key=lambda f: f.get("got") == f.get("want"))
     for f in failures:
         ctx.fail(f["class"], f["what"], input=f.get("input"), got=f.get("got"), want=f.get("want"))
     st = (ctx.read_jsonl("c13_stats.json") or [{}])[0]
@@ -64,7 +73,8 @@ def run(ctx):
         "rule": "one evaluation = one generated test file through commands.TestAction; non-trivial = at least two "
                 "blocks of which at least one does not pass (or has brace damage); distinct by the sequence of body "
                 "templates. Corpus first: each of the %d body templates alone and between two passing tests, the 120 "
-                "orders of {pass, assert, run-time error, compile error, @fail}, the stale-try bodies; then random "
+                "orders of {pass, assert, run-time error, compile error, @fail}, every @compile-override body followed by "
+                "each default-setting-dependent body, the stale-try bodies; then random "
                 "files of 1-12 blocks (30%% pass, 20%% assert, 22%% run-time, 23%% compile error incl. missing/extra "
                 "brace, 5%% @fail), random descriptions (long, Unicode, containing '(PASS)')"
                 % len([k for k in c if k.startswith("tmpl_")]),
